@@ -334,6 +334,7 @@ type Weights struct {
 	Partition, Heal                     int
 	Shutdown                            int
 	FsmGate, FsmRelease                 int
+	SlowWrite, ReleaseWrite             int
 	MaxCrashes, MaxOps, MaxMember       int
 	MaxDown                             int
 }
@@ -487,6 +488,23 @@ func (s *sched) step() {
 			n.inc.failAt = 1 + rng.Intn(3)
 			n.inc.mu.Unlock()
 		})
+		add(w.SlowWrite, func() {
+			n := c.byID[up[rng.Intn(len(up))]]
+			n.inc.mu.Lock()
+			if n.inc.parkCh == nil {
+				n.inc.parkAt = 1 + rng.Intn(4)
+			}
+			n.inc.mu.Unlock()
+		})
+		var parked []*Node
+		for _, id := range up {
+			if c.byID[id].inc.Parked() {
+				parked = append(parked, c.byID[id])
+			}
+		}
+		if len(parked) > 0 {
+			add(w.ReleaseWrite, func() { parked[rng.Intn(len(parked))].inc.Unpark(); c.Settle("diskdone") })
+		}
 		add(w.FsmGate, func() { c.byID[up[rng.Intn(len(up))]].FSM.SetGated(true) })
 		add(w.FsmRelease, func() {
 			n := c.byID[up[rng.Intn(len(up))]]
@@ -565,6 +583,7 @@ func (c *Cluster) StopFaults() {
 			n.inc.mu.Lock()
 			n.inc.crashAt, n.inc.failAt = 0, 0
 			n.inc.mu.Unlock()
+			n.inc.Unpark()
 		}
 	}
 	c.Tr.Emit("faultsstopped", "", nil)
